@@ -455,6 +455,14 @@ func runCase(rt *rapid.T, maxN int) {
 				}
 				return "", false
 			},
+			whose: func(data core.SignedData) (eth2p0.ValidatorIndex, bool) {
+				for _, v := range vals {
+					if specsign.Verify(bn, v.group, data) == nil {
+						return v.index, true
+					}
+				}
+				return 0, false
+			},
 			rec: func(d core.Duty, pk core.PubKey, data core.SignedData) {
 				c, err := data.Clone()
 				must(err)
